@@ -104,12 +104,14 @@ func strictReqSpec() []byte {
 	}
 	ok := map[string]any{"204": map[string]any{"description": "d"}}
 	paths := map[string]any{
-		"/bjson":  map[string]any{"post": map[string]any{"operationId": "bjson", "requestBody": body(map[string]any{"application/json": obj}), "responses": ok}},
-		"/bform":  map[string]any{"post": map[string]any{"operationId": "bform", "requestBody": body(map[string]any{"application/x-www-form-urlencoded": obj}), "responses": ok}},
-		"/btext":  map[string]any{"post": map[string]any{"operationId": "btext", "requestBody": body(map[string]any{"text/plain": map[string]any{"type": "string"}}), "responses": ok}},
-		"/bmulti": map[string]any{"post": map[string]any{"operationId": "bmulti", "requestBody": body(map[string]any{"multipart/form-data": obj}), "responses": ok}},
-		"/bother": map[string]any{"post": map[string]any{"operationId": "bother", "requestBody": body(map[string]any{"application/octet-stream": map[string]any{"type": "string", "format": "binary"}}), "responses": ok}},
-		"/bmany":  map[string]any{"post": map[string]any{"operationId": "bmany", "requestBody": body(map[string]any{"application/json": obj, "application/x-www-form-urlencoded": obj, "text/plain": map[string]any{"type": "string"}}), "responses": ok}},
+		"/bjson":   map[string]any{"post": map[string]any{"operationId": "bjson", "requestBody": body(map[string]any{"application/json": obj}), "responses": ok}},
+		"/bform":   map[string]any{"post": map[string]any{"operationId": "bform", "requestBody": body(map[string]any{"application/x-www-form-urlencoded": obj}), "responses": ok}},
+		"/btext":   map[string]any{"post": map[string]any{"operationId": "btext", "requestBody": body(map[string]any{"text/plain": map[string]any{"type": "string"}}), "responses": ok}},
+		"/bmulti":  map[string]any{"post": map[string]any{"operationId": "bmulti", "requestBody": body(map[string]any{"multipart/form-data": obj}), "responses": ok}},
+		"/bother":  map[string]any{"post": map[string]any{"operationId": "bother", "requestBody": body(map[string]any{"application/octet-stream": map[string]any{"type": "string", "format": "binary"}}), "responses": ok}},
+		"/bvendor": map[string]any{"post": map[string]any{"operationId": "bvendor", "requestBody": body(map[string]any{"application/vnd.api+json": obj}), "responses": ok}},
+		"/bpatch":  map[string]any{"patch": map[string]any{"operationId": "bpatch", "requestBody": body(map[string]any{"application/merge-patch+json": obj}), "responses": ok}},
+		"/bmany":   map[string]any{"post": map[string]any{"operationId": "bmany", "requestBody": body(map[string]any{"application/json": obj, "application/x-www-form-urlencoded": obj, "text/plain": map[string]any{"type": "string"}}), "responses": ok}},
 		"/items/{id}": map[string]any{"get": map[string]any{"operationId": "getItem", "parameters": []any{
 			map[string]any{"name": "id", "in": "path", "required": true, "schema": map[string]any{"type": "integer"}},
 			map[string]any{"name": "q", "in": "query", "schema": map[string]any{"type": "string"}},
@@ -308,18 +310,26 @@ func runC12(r *Report, rng *rand.Rand, thorough bool) {
 		declared     []string
 		wantField    string
 		want         any
+		method       string // POST when empty
+		reject       bool   // malformed body: no handler call, status 400
 	}
 	reqCases := []reqCase{
-		{"bjson", "application/json", `{"a":"é","n":3}`, []string{"application/json"}, "Body", map[string]any{"a": "é", "n": 3}},
-		{"bjson", "application/json; charset=utf-8", `{"a":"x"}`, []string{"application/json"}, "Body", map[string]any{"a": "x"}},
-		{"bform", "application/x-www-form-urlencoded", "a=a+b%26c&n=3", []string{"application/x-www-form-urlencoded"}, "Body", map[string]any{"a": "a b&c", "n": 3}},
-		{"btext", "text/plain", "plain ü", []string{"text/plain"}, "Body", "plain ü"},
-		{"bmulti", mpCT, mpBody, []string{"multipart/form-data"}, "Body", map[string]any{"$multipart": []any{map[string]any{"name": "a", "value": "x"}, map[string]any{"name": "n", "value": "3"}}}},
-		{"bother", "application/octet-stream", "rawbytes", []string{"application/octet-stream"}, "Body", map[string]any{"$reader": "rawbytes"}},
-		{"bmany", "application/json", `{"a":"j"}`, []string{"application/json", "application/x-www-form-urlencoded", "text/plain"}, "JSONBody", map[string]any{"a": "j"}},
-		{"bmany", "application/x-www-form-urlencoded", "a=f", []string{"application/json", "application/x-www-form-urlencoded", "text/plain"}, "FormdataBody", map[string]any{"a": "f"}},
-		{"bmany", "text/plain; charset=utf-8", "t", []string{"application/json", "application/x-www-form-urlencoded", "text/plain"}, "TextBody", "t"},
-		{"bmany", "application/xml", "<x/>", []string{"application/json", "application/x-www-form-urlencoded", "text/plain"}, "", nil},
+		{"bjson", "application/json", `{"a":"é","n":3}`, []string{"application/json"}, "Body", map[string]any{"a": "é", "n": 3}, "", false},
+		{"bjson", "application/json; charset=utf-8", `{"a":"x"}`, []string{"application/json"}, "Body", map[string]any{"a": "x"}, "", false},
+		{"bform", "application/x-www-form-urlencoded", "a=a+b%26c&n=3", []string{"application/x-www-form-urlencoded"}, "Body", map[string]any{"a": "a b&c", "n": 3}, "", false},
+		{"btext", "text/plain", "plain ü", []string{"text/plain"}, "Body", "plain ü", "", false},
+		{"bmulti", mpCT, mpBody, []string{"multipart/form-data"}, "Body", map[string]any{"$multipart": []any{map[string]any{"name": "a", "value": "x"}, map[string]any{"name": "n", "value": "3"}}}, "", false},
+		{"bother", "application/octet-stream", "rawbytes", []string{"application/octet-stream"}, "Body", map[string]any{"$reader": "rawbytes"}, "", false},
+		{"bmany", "application/json", `{"a":"j"}`, []string{"application/json", "application/x-www-form-urlencoded", "text/plain"}, "JSONBody", map[string]any{"a": "j"}, "", false},
+		{"bmany", "application/x-www-form-urlencoded", "a=f", []string{"application/json", "application/x-www-form-urlencoded", "text/plain"}, "FormdataBody", map[string]any{"a": "f"}, "", false},
+		{"bmany", "text/plain; charset=utf-8", "t", []string{"application/json", "application/x-www-form-urlencoded", "text/plain"}, "TextBody", "t", "", false},
+		{"bmany", "application/xml", "<x/>", []string{"application/json", "application/x-www-form-urlencoded", "text/plain"}, "", nil, "", false},
+		// JSON media types other than application/json, on POST and PATCH; a malformed document is rejected
+		{"bvendor", "application/vnd.api+json", `{"a":"v","n":7}`, []string{"application/vnd.api+json"}, "Body", map[string]any{"a": "v", "n": 7}, "", false},
+		{"bvendor", "application/vnd.api+json; charset=utf-8", `{"a":"w"}`, []string{"application/vnd.api+json"}, "Body", map[string]any{"a": "w"}, "", false},
+		{"bvendor", "application/vnd.api+json", `{"a":`, []string{"application/vnd.api+json"}, "", nil, "", true},
+		{"bpatch", "application/merge-patch+json", `{"a":"p","n":1}`, []string{"application/merge-patch+json"}, "Body", map[string]any{"a": "p", "n": 1}, "PATCH", false},
+		{"bjson", "application/json", `{"a":`, []string{"application/json"}, "", nil, "", true},
 	}
 	for _, fw := range Frameworks {
 		name := "c12_req_" + fw
@@ -330,8 +340,12 @@ func runC12(r *Report, rng *rand.Rand, thorough bool) {
 		}
 		for i, rc := range reqCases {
 			id := fmt.Sprintf("%s/req%d", name, i)
+			method := rc.method
+			if method == "" {
+				method = "POST"
+			}
 			scenarios = append(scenarios, map[string]any{"id": id, "pkg": name, "opts": opts(map[string]any{}),
-				"req": map[string]any{"method": "POST", "target": "/" + rc.op, "header": map[string][]string{"Content-Type": {rc.ct}}, "body": rc.body}})
+				"req": map[string]any{"method": method, "target": "/" + rc.op, "header": map[string][]string{"Content-Type": {rc.ct}}, "body": rc.body}})
 			metas[id] = meta{fw, scell{Op: rc.op}, map[string]any{"i": i}, "request"}
 		}
 		id := name + "/params"
@@ -387,6 +401,19 @@ func runC12(r *Report, rng *rand.Rand, thorough bool) {
 			}
 		case "request":
 			rc := reqCases[m.val["i"].(int)]
+			// echo's strict wrapper decodes JSON bodies with ctx.Bind, whose default binder knows application/json only: a
+			// declared +json media type is answered 415 before the handler (recorded; any other outcome is judged below)
+			if m.fw == "echo" && res.Status == 415 && handlers == 0 && strings.Contains(rc.ct, "+json") && !strings.HasPrefix(rc.ct, "application/json") {
+				r.Violate("echo_strict_plus_json_request_body_unsupported_media_type", fmt.Sprintf("%s: %s body declared as %s sent with Content-Type %q: status 415, handler not called", id, rc.op, rc.declared[0], rc.ct), replay)
+				continue
+			}
+			if rc.reject {
+				r.Dist["request=malformed-body"]++
+				if handlers != 0 || res.Status != 400 {
+					r.Violate("malformed_request_body_not_rejected/"+m.fw+"/"+rc.op, fmt.Sprintf("%s: Content-Type %q body %q: handler calls %d, status %d, want no call and 400", id, rc.ct, rc.body, handlers, res.Status), replay)
+				}
+				continue
+			}
 			var req map[string]json.RawMessage
 			_ = json.Unmarshal(hev.Data["request"], &req)
 			var set []string
@@ -532,5 +559,5 @@ func runC12(r *Report, rng *rand.Rand, thorough bool) {
 	vcases.WriteTo(r)
 	bcases.WriteTo(r)
 	r.Exhaustive = true
-	r.Rule = "response cells: media type {application/json, vendor +json, text/plain, form, multipart/form-data, multipart/related, octet-stream, image/* (wildcard), application/*+json (tagged wildcard), no content} x status {200, 4XX, default} x headers {none, two} x {inline, component reference}, each returned by a recording strict handler of each of the 7 frameworks with generated values (and with / without a strict middleware); observed status, Content-Type, headers and body vs the declaration and vs the model in Coq; handler error -> error path; request side: JSON (+charset), form, text, multipart, octet-stream and multi-body operations x Content-Types incl. undeclared, path/query/header parameters in the request object; non-trivial = not the plain JSON 200 cell"
+	r.Rule = "response cells: media type {application/json, vendor +json, text/plain, form, multipart/form-data, multipart/related, octet-stream, image/* (wildcard), application/*+json (tagged wildcard), no content} x status {200, 4XX, default} x headers {none, two} x {inline, component reference}, each returned by a recording strict handler of each of the 7 frameworks with generated values (and with / without a strict middleware); observed status, Content-Type, headers and body vs the declaration and vs the model in Coq; handler error -> error path; request side: JSON (+charset), vendor +json on POST and merge-patch+json on PATCH, malformed JSON documents (rejected with 400), form, text, multipart, octet-stream and multi-body operations x Content-Types incl. undeclared, path/query/header parameters in the request object; non-trivial = not the plain JSON 200 cell"
 }
